@@ -65,7 +65,8 @@ func ZZHistSequential() {
 	if rt.Symbolic() {
 		rt.Subst("github.com/netflix/rend/metrics.getBucket", zzBucketAny)
 	}
-	id := AddHistogram("zzseq", false, nil)
+	sampled := rt.Param("sampled", 0) == 1
+	id := AddHistogram("zzseq", sampled, nil)
 	name := "hist_zzseq"
 	bbefore := getAllBucketHistograms()
 	total := 0
@@ -73,13 +74,24 @@ func ZZHistSequential() {
 		n := rt.Choice("n"+string(rune('0'+period)), m+1)
 		var vs []uint64
 		for i := 0; i < n; i++ {
-			v := rt.U64("v" + string(rune('0'+period)) + string(rune('0'+i)))
-			rt.Assume(v <= 1<<63-1)
+			var v uint64
+			if sampled {
+				v = uint64(10*period + i + 1) // the count does not depend on the values
+			} else {
+				v = rt.U64("v" + string(rune('0'+period)) + string(rune('0'+i)))
+				rt.Assume(v <= 1<<63-1)
+			}
 			ObserveHist(id, v)
 			vs = append(vs, v)
 		}
 		total += n
 		ints, _ := getAllHistograms()
+		if sampled {
+			// sampled mode (every 4th observation kept): only the count is claimed
+			cnt, ok := zzFindInt(ints, name, "count")
+			rt.Assert("c18-sampled-count-is-number-of-observations", ok && cnt == uint64(len(vs)))
+			continue
+		}
 		zzPeriod(ints, name, vs, "c18-hist")
 	}
 	rt.Reach("periods-read")
